@@ -748,6 +748,21 @@ impl Store {
         value: ValueEntry,
         force: bool,
     ) -> StoreResult<(bool, Option<Vec<AffectedLsSubscribers>>)> {
+        // reject the insert before any path nodes are created, otherwise a failed insert
+        // leaves empty nodes behind
+        match (self.get_node(path).and_then(Node::value), &value, force) {
+            (None | Some(ValueEntry::Plain(_)), ValueEntry::Cas(_, v), false) if *v != 0 => {
+                return Err(StoreError::CasVersionMismatch);
+            }
+            (Some(ValueEntry::Cas(_, _)), ValueEntry::Plain(_), false) => {
+                return Err(StoreError::Cas);
+            }
+            (Some(ValueEntry::Cas(_, v_curr)), ValueEntry::Cas(_, v), false) if v_curr != v => {
+                return Err(StoreError::CasVersionMismatch);
+            }
+            _ => {}
+        }
+
         let mut ls_subscribers: Option<Vec<(Vec<LsSubscriber>, &[String])>> = None;
         let mut current_node = &mut self.data;
         let mut current_subscribers = Some(&self.subscribers);
